@@ -245,7 +245,7 @@ def walk_side(ctx):
     for p, f in [('*', 0), ('**', S), ('**/x', S), ('*/x', 0), ('a/*', MK), ('**/', S), ('.*', D), (['*', 'a/*'], S), ('@(a|b)/*', E), ('**', S | F), ('[a-x]*', 0), ('a/', 0)]:
         for t in ts:
             combos.append(('c18fs', t, ('glob', p, f)))
-    for p, f in [('*', W.RECURSIVE), ('*x|f', W.RECURSIVE | W.HIDDEN), ('**/x', W.RECURSIVE | W.FILEPATHNAME | W.GLOBSTAR), ('!x', W.RECURSIVE | W.SYMLINKS | W.HIDDEN)]:
+    for p, f in [(None, W.RECURSIVE), (None, W.RECURSIVE | W.HIDDEN | W.SYMLINKS), ('', W.RECURSIVE), ('*', W.RECURSIVE), ('*x|f', W.RECURSIVE | W.HIDDEN), ('**/x', W.RECURSIVE | W.FILEPATHNAME | W.GLOBSTAR), ('!x', W.RECURSIVE | W.SYMLINKS | W.HIDDEN)]:
         for t in ts:
             combos.append(('c18fs', t, ('wcmatch', p, f)))
     saved = ctx.coverage
